@@ -83,9 +83,16 @@ def serde_axioms(u):
             view = "@" if ftype.startswith("Vec<") else ""
             clauses.append("(%s && !yaml_has__%s(s) ==> %s%s == %s_spec())" % (guard, key, access, view, m.group(1)))
             return
+        if attr == "default" and ftype != "RustConfig":
+            # Default::default() of the field type
+            dv = {"bool": "%s == false", "String": "%s@ == Seq::<char>::empty()", "u32": "%s == 0"}.get(ftype)
+            if dv is None and ftype.startswith("Vec<"):
+                dv = "%s@.len() == 0"
+            if dv is None:
+                raise LostAnchor("#[serde(default)] on field %s of unhandled type %s" % (field, ftype))
+            clauses.append("(%s && !yaml_has__%s(s) ==> %s)" % (guard, key, dv % access))
+            return
         if attr == "default":
-            if ftype != "RustConfig":
-                raise LostAnchor("#[serde(default)] on unexpected field %s" % field)
             # derived Default of RustConfig
             clauses.append("(%s && !yaml_has__%s(s) ==> %s.structured == false && %s.log_macros@ == Seq::<RustLogMacro>::empty()"
                            " && %s.extensions@ == Seq::<String>::empty())" % (guard, key, access, access, access))
